@@ -822,9 +822,11 @@ namespace ip {
 			}
 			case aux::packet::type_t::ack:
 			{
-				// if the socket just became writeable, we need to notify the
-				// client. First we want to know whether it was not writeable.
-				const bool was_writeable = m_bytes_in_flight + m_mss <= m_cwnd;
+				// if the socket is writeable once this ACK has been processed, a
+				// blocked writer can go on. (The window may have opened earlier,
+				// when a dropped segment was taken out of the in-flight account:
+				// waiting for the not-writeable -> writeable edge here would leave
+				// that writer blocked for ever)
 
 				auto it = m_outstanding_packet_sizes.find(p.seq_nr);
 				assert(it != m_outstanding_packet_sizes.end());
@@ -855,7 +857,7 @@ namespace ip {
 
 				const bool is_writeable = m_bytes_in_flight + m_mss <= m_cwnd;
 
-				if (!was_writeable && is_writeable)
+				if (is_writeable)
 					maybe_wakeup_writer();
 
 				return;
